@@ -348,3 +348,13 @@ func VerifDecodeInstallSnapshotRequest(data []byte) (InstallSnapshotRequest, err
 	}
 	return makeInstallSnapshotRequest(received), nil
 }
+
+// VerifLogBaseOf returns the index and term of the placeholder entry of a file-backed
+// log (the compaction base), which the Log interface does not expose.
+func VerifLogBaseOf(l Log) (uint64, uint64, bool) {
+	p, ok := l.(*persistentLog)
+	if !ok || len(p.entries) == 0 {
+		return 0, 0, false
+	}
+	return p.entries[0].Index, p.entries[0].Term, true
+}
